@@ -384,6 +384,72 @@ fn sponge_base<B: Backend>(name: &'static str, packing: TablePacking) -> Result<
     finish::<B>(name, b, Inputs { public, private: vec![], siblings: vec![] }, packing)
 }
 
+/// The D = 1 challenger pattern inside a higher-degree circuit (what `duplexing_base`,
+/// `observe_ext` and `sample_ext` emit for the quintic configuration): a `new_start` sponge row
+/// absorbing 8 publics (length tag bound in the AIR), an extension value observed through
+/// `decompose_ext_to_base_coeffs` with coefficient lookups (hint + `recompose/coeff` row that
+/// CREATES the coefficients on the bus), a chained second row, and an extension sample
+/// recomposed from 5 rate outputs.
+fn challenger_base<B: Backend>(name: &'static str, packing: TablePacking) -> Result<Box<dyn Case>, String> {
+    let cfg = B::poseidon_config().ok_or("backend has no permutation")?;
+    if cfg.d() != 1 {
+        return Err("challenger_base needs a D=1 permutation".into());
+    }
+    let d = B::D;
+    let emb = |v: B::BF| {
+        let mut c = vec![B::BF::ZERO; d];
+        c[0] = v;
+        B::EF::from_basis_coefficients_slice(&c).unwrap()
+    };
+    let mut b = B::new_builder();
+    b.set_recompose_coeff_ctl_for_decompose_links(true);
+    let mut public = vec![];
+    let mut st = [B::BF::ZERO; 16];
+    // round 0
+    let mut ins: [Option<ExprId>; 16] = [None; 16];
+    for i in 0..8 {
+        ins[i] = Some(b.public_input());
+        st[i] = B::BF::from_u64(200 + i as u64);
+        public.push(emb(st[i]));
+    }
+    b.add_poseidon2_perm_for_challenger_base(cfg, true, ins, 8)
+        .map_err(|e| format!("{e:?}"))?;
+    st[8] += B::BF::from_u64(8);
+    st = B::perm16(st);
+    // round 1: observe an extension element (d coefficients) + publics up to the rate
+    let x = b.public_input();
+    let xv = tag::<B>(17);
+    public.push(xv);
+    let coeffs = b.decompose_ext_to_base_coeffs::<B::BF>(x).map_err(|e| format!("{e:?}"))?;
+    let mut ins: [Option<ExprId>; 16] = [None; 16];
+    for i in 0..8 {
+        if i < d.min(8) {
+            ins[i] = Some(coeffs[i]);
+            st[i] = xv.as_basis_coefficients_slice()[i];
+        } else {
+            ins[i] = Some(b.public_input());
+            st[i] = B::BF::from_u64(300 + i as u64);
+            public.push(emb(st[i]));
+        }
+    }
+    let outs = b
+        .add_poseidon2_perm_for_challenger_base(cfg, false, ins, 8)
+        .map_err(|e| format!("{e:?}"))?;
+    st[8] += B::BF::from_u64(8);
+    st = B::perm16(st);
+    // sample_ext
+    let e = b
+        .recompose_base_coeffs_to_ext::<B::BF>(&outs[..d])
+        .map_err(|e| format!("{e:?}"))?;
+    let k = b.define_const(tag::<B>(2));
+    let y = b.mul(e, k);
+    let exp = b.public_input();
+    b.connect(y, exp);
+    let ev = B::EF::from_basis_coefficients_slice(&st[..d]).unwrap();
+    public.push(ev * tag::<B>(2));
+    finish::<B>(name, b, Inputs { public, private: vec![], siblings: vec![] }, packing)
+}
+
 macro_rules! spec {
     ($name:literal, $b:ty, $covers:literal, $f:expr) => {
         Spec {
@@ -420,6 +486,8 @@ pub fn catalogue() -> Vec<Spec> {
         spec!("kb5-arith", KbD5, "quintic trinomial ALU", |n| arith::<KbD5>(n, TablePacking::default())),
         spec!("kb5-horner", KbD5, "quintic trinomial Horner chain", |n| horner::<KbD5>(n, TablePacking::default())),
         spec!("kb5-recompose", KbD5, "recompose + recompose/coeff tables; D=5", |n| recompose::<KbD5>(n, TablePacking::default())),
+        spec!("kb5-challenger-base", KbD5, "D=1 challenger pattern in a D=5 circuit: absorb_len tag, chained capacity, recompose/coeff as creator of observed coefficients, sample_ext", |n| challenger_base::<KbD5>(n, TablePacking::default())),
+        spec!("kb4-sponge-chain", KbD4, "KoalaBear D4 sponge rows chained inside the table", |n| sponge_chain::<KbD4>(n, TablePacking::default())),
         spec!("kb5-sponge-d1", KbD5, "D=1 Poseidon2 table in a D=5 circuit: sponge new_start + chained row", |n| sponge_base::<KbD5>(n, TablePacking::default())),
     ]
 }
